@@ -326,6 +326,10 @@ h("kd9_slide_hash_chain", "zlib-rs/src/deflate/slide_hash/verif_kani.rs", "defla
   functions=["slide_hash::slide_hash_chain", "generic_slide_hash_chain::<32>"], bounds="64 symbolic entries, any wsize")
 
 # ---------------------------------------------------------------- deflate: KD6 stored path
+h("kd6_stored_pending_block_fits_len16", D + "/kd6_stored.rs", "deflate::verif_kani::kd6_stored", ["C05", "C01"], kernel="KD6", expect_s=120, timeout=1200, weight=2, mem_gb=20,
+  functions=["algorithm::stored::deflate_stored (path that builds the block in the pending buffer)", "flush_pending"],
+  bounds="production sizes: windowBits 15 (64 KiB window), memLevel 9 (128 KiB pending buffer, empty); any strstart <= 65536 and block_start <= strstart, no input, avail_out <= 4, every flush mode",
+  assumptions=["zng_tr_stored_block -> contract stub: asserts the range lies in the window and is at most 65535 bytes long, writes nothing (the real writer at small sizes is decided by kd6_stored_*)"])
 h("kd6_stored_one_call", D + "/kd6_stored.rs", "deflate::verif_kani::kd6_stored", ["C01", "C05", "C06", "C07", "C11", "C15"],
   kernel="KD6", expect_s=400, timeout=2400, weight=3, mem_gb=20,
   functions=["algorithm::run", "algorithm::stored::deflate_stored", "read_buf_direct_copy", "read_buf_window", "zng_tr_stored_block",
@@ -353,6 +357,10 @@ h("kd7_zlib_wrapper", D + "/kd7_machine.rs", "deflate::verif_kani::kd7_machine",
   functions=["deflate::deflate", "State::header", "State::level_flags", "flush_pending", "zng_tr_stored_block", "BitWriter::align", "rank_flush"],
   bounds="zlib wrapper, w_bits 9, all levels 0..=9 x 5 strategies x dictionary/no dictionary x any DICTID x flush in {Finish, Sync, Full, Partial, Block}; 16 bytes of output; second identical call",
   assumptions=RUNSTUB)
+h("kd7_finish_after_prime_on_a_finished_stream", D + "/kd7_machine.rs", "deflate::verif_kani::kd7_machine", ["C16", "C06"], kernel="KD7", expect_s=120, timeout=1200, weight=2, mem_gb=16,
+  functions=["deflate::prime", "deflate::deflate (status Finish)", "flush_pending", "BitWriter::flush_bits"],
+  bounds="typed state of a finished stream (raw, or zlib/gzip with the trailer written), empty pending buffer and bit register; deflatePrime with any bits in 0..=32 and any value, then deflate(Z_FINISH) with 0..=6 bytes of room",
+  assumptions=["algorithm::run stubbed (not reached: nothing to compress on a finished stream)"])
 h("kd7_zlib_starved_finish", D + "/kd7_machine.rs", "deflate::verif_kani::kd7_machine", ["C06", "C11", "C05", "C15"],
   kernel="KD7", expect_s=330, timeout=1800, weight=3, mem_gb=24,
   functions=["deflate::deflate", "flush_pending"],
@@ -486,6 +494,8 @@ for _w in (100, 88, 87):
       bounds="512-byte window that has been flushed once, %d bytes of the current pass written; concrete input: length 3 at distance 600, end of block "
              "(600 <= 512 + written for 100 and 88: the case the loop used to accept; 87: one short of it)" % _w,
       assumptions=["fully concrete input: the verdict of the fast loop is the subject; every CBMC safety check along the path applies"])
+
+# (kb1_fast_back_straddling_overlap: did not finish in 900 s even on a nearly concrete instance; not registered, see the comment in infback/verif_kani.rs)
 
 # ---------------------------------------------------------------- checksums (C09)
 CB = "zlib-rs/src/crc32/braid/verif_kani.rs"
@@ -678,7 +688,7 @@ QUICK = {
             "ki5e_length_gzip", "ki5b_hcrc"],
     "C04": ["ki5d_dist_long_code_dispatch", "ki1_bitreader_split", "ki5c_copyblock_resume", "ki5c_stored_trees", "ki5d_match_guard_dispatch", "ki5c_codelens_17_suspend", "ki5c_lenlens_order", "ki5b_extra", "ki5d_dist_step_friends",
             "ki7_inflate_copyblock", "ki3_window_extend_ring", "ki5c_typedo_b2_i0"],
-    "C05": ["kd4_gen_codes_n5", "kd4_build_tree_bl_k2", "kd4_build_tree_bl_k3", "kd4_build_tree_bl_single", "kd5_send_tree_n4", "kd5_send_tree_z11_n13", "kd1_bitwriter_pack", "kd1_emitters_one_step", "kd1_bitwriter_full_register", "kd10_prime",
+    "C05": ["kd6_stored_pending_block_fits_len16", "kd4_gen_codes_n5", "kd4_build_tree_bl_k2", "kd4_build_tree_bl_k3", "kd4_build_tree_bl_single", "kd5_send_tree_n4", "kd5_send_tree_z11_n13", "kd1_bitwriter_pack", "kd1_emitters_one_step", "kd1_bitwriter_full_register", "kd10_prime",
             "kd2_static_encode_matches_rfc", "kd2_static_ltree_is_rfc_fixed_code", "kd7_zlib_wrapper", "kd8_quick_finish_n1",
             "kd10_set_dictionary_protocol"],
     "C06": ["kd10_prime_room0", "kd10_prime_room7", "kd10_prime_room8", "kd7_refused_call_without_space_is_harmless", "kd7_starved_flush_is_completed_by_the_next_call", "kd7_zlib_wrapper", "kd7_zlib_starved_finish", "kd10_prime", "kd10_params_tune", "kd10_set_header",
@@ -696,7 +706,7 @@ QUICK = {
             "kd10c_symbuf_clone_to", "ki8c_window_clone_to", "kd7_gzip_start_stale_gzindex"],
     "C15": ["ki7_inflate_primed_32_then_fast", "ki7_inflate_copyblock", "ki7_inflate_terminal", "ki5c_copyblock_resume", "ki1_bitreader_refill_model", "ki8_sync",
             "ki8_sync_then_inflate", "kd7_zlib_wrapper"],
-    "C16": ["ki8_small_entry_points", "ki8_sync", "ki8_reset_equals_fresh", "ki5a_set_dictionary", "kd10_prime", "kd10_params_tune",
+    "C16": ["kd7_finish_after_prime_on_a_finished_stream", "ki8_small_entry_points", "ki8_sync", "ki8_reset_equals_fresh", "ki5a_set_dictionary", "kd10_prime", "kd10_params_tune",
             "kd10_set_header", "kd10_set_dictionary_protocol", "ki7_inflate_terminal", "ki5e_terminal_modes"],
     "C18": ["ka3_default_allocator_fallback_is_a_matched_pair", "ka1_alloc_shim", "ka1_alloc_overflow_and_null", "ka2_deflate_copy_alloc_failure", "ka2_deflate_end_releases_once",
             "ka2_inflate_end_releases_once"],
